@@ -190,6 +190,20 @@ func credDefects() []credDefect {
 			sg := gw.Presign(r, gw.Root, gw.SignOpts{Time: time.Now().Add(-10 * time.Minute)}, 60)
 			return sg
 		}},
+		// an expired url replayed with a longer lifetime in the query and the signed lifetime moved into a request
+		// header that is named as signed (a verifier that lifts headers into the query sees what was signed)
+		{"presigned-expired-lifetime-respelled", func(r *gw.Req, ph string) gw.Signed {
+			sg := gw.Presign(r, gw.Root, gw.SignOpts{Time: time.Now().Add(-6 * time.Hour)}, 60)
+			r.Query = strings.Replace(r.Query, "X-Amz-Expires=60", "X-Amz-Expires=604800", 1)
+			for _, sep := range []string{"X-Amz-SignedHeaders=host&", "X-Amz-SignedHeaders=host"} {
+				if strings.Contains(r.Query, sep) {
+					r.Query = strings.Replace(r.Query, sep, strings.Replace(sep, "host", "host%3Bx-amz-expires", 1), 1)
+					break
+				}
+			}
+			r.Set("X-Amz-Expires", "60")
+			return sg
+		}},
 		{"presigned-wrong-secret", func(r *gw.Req, ph string) gw.Signed { sg := gw.Presign(r, badRoot, gw.SignOpts{}, 600); return sg }},
 		{"presigned-query-altered", func(r *gw.Req, ph string) gw.Signed {
 			sg := gw.Presign(r, gw.Root, gw.SignOpts{}, 600)
